@@ -12,7 +12,18 @@
      c18dec <frame> <hex>                    -> OK <consumed> <idval> (<p> <val>)* | FAIL
      c18uperdec <frame> <hex>                -> same
      c18cells <frame>                        -> <cell> ... (identifier cells of the table, I<z>; or O<hex>;) | EMPTY
-     c18selraw <frame> <hex>                 -> <p>   (wide: the selector on raw INTEGER_t contents octets) *)
+     c18selraw <frame> <hex>                 -> <p>   (wide: the selector on raw INTEGER_t contents octets)
+   The table as a matrix over a class of any shape (Rt/OpenTypeMatrix.v).  A set is given by the tokens
+     <ngroups> ( <nelems> <elem>{nelems} ){ngroups}
+     elem = o:<settings>            an object: comma-separated <field index>=<setting>, in WITH SYNTAX order
+                                     (setting = a value I<z>; / O<hex>; or T:<type name>); o:- sets nothing
+          | r:<nw>:<nc> <obj>{nw} <obj>{nc}   a reference to another set: its objects as written, the table compiled for it
+   commands:
+     c18mx <native|wide> <nfields> <set>                 -> <rows> <cols> <cell>* | REFUSED   (emit_dense of compile_objs; cell = - when unset)
+     c18msel <spec|native|wide> <nfields> <ic> <fc> <set> <idval>
+                                                         -> 0 | <p>:<cell> | STUCK   (spec: select_written on spec_objs;
+                                                            else select_flat on the emitted matrix)
+     c18alts <fc> <set>                                  -> <type cell>* | EMPTY   (alternatives of the open type on column fc) *)
 open Model
 open Drvlib
 
@@ -163,6 +174,60 @@ let dec_s = function
   | Some (fv, n) -> Printf.sprintf "OK %s %s" (string_of_cz n) (show_fval fv)
   | None -> "FAIL"
 
+(* ---------------- the matrix over any class shape ---------------- *)
+
+type mcell = Cv of val0 | Ct of string
+
+let show_mcell = function Cv v -> show_val v | Ct n -> "T:" ^ n
+let show_ocell = function Some c -> show_mcell c | None -> "-"
+
+let parse_setting s : mcell =
+  if String.length s > 2 && String.sub s 0 2 = "T:" then Ct (String.sub s 2 (String.length s - 2)) else Cv (val_of s)
+
+let parse_obj (tok : string) : (nat * mcell) list =
+  if String.length tok < 2 || String.sub tok 0 2 <> "o:" then raise (Parse ("object expected: " ^ tok));
+  let body = String.sub tok 2 (String.length tok - 2) in
+  if body = "-" then []
+  else List.map (fun kv ->
+         match String.index_opt kv '=' with
+         | Some i -> (nat_of_int (int_of_string (String.sub kv 0 i)), parse_setting (String.sub kv (i + 1) (String.length kv - i - 1)))
+         | None -> raise (Parse ("setting expected: " ^ kv)))
+       (String.split_on_char ',' body)
+
+let parse_eset (toks : string list) : (mcell elem) list list * string list =
+  match toks with
+  | ng :: rest ->
+      let rest = ref rest in
+      let next () = match !rest with t :: r -> rest := r; t | [] -> raise (Parse "missing set tokens") in
+      let groups = List.init (int_of_string ng) (fun _ ->
+        let n = int_of_string (next ()) in
+        List.init n (fun _ ->
+          let t = next () in
+          if String.length t > 2 && String.sub t 0 2 = "r:" then begin
+            match String.split_on_char ':' t with
+            | [_; nw; nc] ->
+                let w = List.init (int_of_string nw) (fun _ -> parse_obj (next ())) in
+                let c = List.init (int_of_string nc) (fun _ -> parse_obj (next ())) in
+                ERef (w, c)
+            | _ -> raise (Parse ("reference expected: " ^ t))
+          end else EObj (parse_obj t))) in
+      (groups, !rest)
+  | [] -> raise (Parse "set expected")
+
+let rep_of = function "native" -> RNative | "wide" -> RWide | m -> raise (Parse ("representation: " ^ m))
+
+(* value cells as the compiler emits them under a representation *)
+let emit_mcell rep = function
+  | Cv v -> (match emit_cell rep v with Some c -> Cv c | None -> raise Refused)
+  | Ct n -> Ct n
+
+let emit_objs rep objs = List.map (List.map (fun (k, c) -> (k, emit_mcell rep c))) objs
+
+let show_sel = function
+  | SelNone -> "0"
+  | SelStuck -> "STUCK"
+  | SelRow (r, tc) -> string_of_int (int_of_nat r + 1) ^ ":" ^ show_ocell tc
+
 let rec dispatch cmd args =
   try dispatch0 cmd args with Refused -> Some "REFUSED"
 and dispatch0 cmd args =
@@ -200,5 +265,37 @@ and dispatch0 cmd args =
       let (f, rest) = parse_frame args in
       (match rest with
        | [h] -> Some (dec_s (uper_decode_frame_rep !cur_rep f (bytes_of_hex h)))
+       | _ -> Some "BADARG")
+  | "c18mx" ->
+      (match args with
+       | rep :: n :: rest ->
+           let (s, _) = parse_eset rest in
+           let e = emit_dense (nat_of_int (int_of_string n)) (emit_objs (rep_of rep) (compile_objs s)) in
+           Some (String.concat " " (string_of_int (int_of_nat e.e_rows) :: string_of_int (int_of_nat e.e_cols) :: List.map show_ocell e.e_cells))
+       | _ -> Some "BADARG")
+  | "c18msel" ->
+      (match args with
+       | mode :: n :: ic :: fc :: rest ->
+           let (s, rest) = parse_eset rest in
+           let nn x = nat_of_int (int_of_string x) in
+           (match rest with
+            | [idv] ->
+                let v = val_of idv in
+                if mode = "spec" then
+                  Some (show_sel (select_written (function Cv c -> id_eqb v c | Ct _ -> false) (nn ic) (nn fc) (spec_objs s) O))
+                else begin
+                  let rep = rep_of mode in
+                  let e = emit_dense (nn n) (emit_objs rep (compile_objs s)) in
+                  Some (show_sel (select_flat (function Cv c -> cell_eqb rep (key_of rep v) c | Ct _ -> false) e (nn ic) (nn fc)))
+                end
+            | _ -> Some "BADARG")
+       | _ -> Some "BADARG")
+  | "c18alts" ->
+      (match args with
+       | fc :: rest ->
+           let (s, _) = parse_eset rest in
+           (match alts (nat_of_int (int_of_string fc)) (compile_objs s) with
+            | [] -> Some "EMPTY"
+            | l -> Some (String.concat " " (List.map show_mcell l)))
        | _ -> Some "BADARG")
   | _ -> None
